@@ -616,4 +616,27 @@ theorem mcScanChild_char (w : Worker) (inner : List (Label × Row)) (c : Content
     rw [shippedCopyFirst_eq] at this
     exact this
 
+theorem placeFrom_shift (k : Nat) : ∀ (ps : List (Label × Pickled)) (n : Nat),
+    (placeFrom n ps).map (fun ls => (ls.1, { ls.2 with cell := ls.2.cell + k })) = placeFrom (n + k) ps := by
+  intro ps
+  induction ps with
+  | nil => intro n; rfl
+  | cons p rest ih =>
+    intro n
+    simp only [placeFrom, List.map_cons]
+    rw [ih (n + 1)]
+    have : n + 1 + k = n + k + 1 := by omega
+    rw [this]
+
+open Mxl.Generated.C09 in
+theorem protoSteps_eq (steps : Nat) : ∀ (proto : Protocol) (t0 : Rat),
+    protoSteps linspace steps t0 (proto.map (·.1)) = protoIndex steps t0 false proto := by
+  intro proto
+  induction proto with
+  | nil => intro t0; rfl
+  | cons s rest ih =>
+    intro t0
+    simp only [List.map_cons, protoSteps, protoIndex, protoPoints, protoDrop, ih s.1]
+    rfl
+
 end Mxl.C09
